@@ -327,6 +327,31 @@ def run(tier):
             traces.append({"ops": ops, "fin": fin})
             metas.append({"type": tn, "history": [(op, c[0], c[2]) for op, c in h]})
             ctx.case(json.dumps(metas[-1]))
+    # a typed list that sits in ANOTHER field (other element type) assigned to a list field: whatever the receiving field
+    # makes of it, the list it was taken from keeps its elements
+    Dsrc = RecordDescriptor("t/listsource", [("uint32[]", "big"), ("string[]", "texts"), ("varint[]", "ints"), ("string", "g")])
+    for t in gen.LISTABLE:
+        tn = t + "[]"
+        try:
+            Dl = RecordDescriptor("t/listdest_" + gen.typename_slug(tn), [(tn, "f"), ("string", "g")])
+            fcls = fieldtype(tn)
+        except Exception:
+            continue
+        for srcfield in ("big", "texts", "ints"):
+            src = Dsrc([70000, 1], ["1.2.3.4", "/x"], [1, 2], "x", _generated=gen.GEN)
+            rec = Dl(None, "x", _generated=gen.GEN)
+            b_src, b_rec = safe_obs(src), safe_obs(rec)
+            raised, exc = False, "none"
+            try:
+                rec.f = getattr(src, srcfield)
+            except Exception as e:
+                raised, exc = True, type(e).__name__
+            after = safe_obs(rec)
+            traces.append({"ops": [{"op": "assign_from", "cand": srcfield, "must": "unspec", "raised": raised, "exc": exc,
+                                    "slot": "foreign" if after.startswith("UNOBSERVABLE") else slot_state(rec, "f", fcls, True), "changed": after != b_rec, "src_changed": safe_obs(src) != b_src}],
+                           "fin": {"done": True, "all_accepted": False, "packed": True, "decoded_typed": True, "why": "none"}})
+            metas.append({"type": tn, "history": [("assign_from", "list of " + srcfield, "unspec")]})
+            ctx.case(json.dumps(metas[-1]))
     # DECODING: a record frame (built with the reference encoder) carries a value the field type cannot represent -- the
     # reader must refuse it; a frame carrying a representable value decodes to a typed slot
     import io
